@@ -153,3 +153,68 @@ def random_model(rng, boundary=None):
 
 def max_useful_level(m):
     return min(12, max(m['ln']) + max([l for _, l in m['ip']] + [0]) + 3)
+
+
+# --------------------------------------------------------------------------
+# I-layer conformance: step the real generator and expose its internal state (OmenEnum.tla)
+# --------------------------------------------------------------------------
+def ordered_model(d):
+    """the lists in file order, as the generator's loader builds them; characters -> ids by alphabet position"""
+    import configparser
+    cp = configparser.ConfigParser()
+    cp.read(os.path.join(d, 'config.txt'))
+    n = cp.getint('training_settings', 'ngram')
+    enc = cp.get('training_settings', 'encoding')
+    ids = {}
+    for a in rulesets.neutral_read(os.path.join(d, 'alphabet.txt'), enc):
+        ids.setdefault(a, len(ids) + 1)
+    lnl = [[] for _ in range(11)]
+    for L, line in enumerate(rulesets.neutral_read(os.path.join(d, 'LN.level'), 'ascii'), 1):
+        if L >= n:
+            lnl[int(line)].append(L - (n - 1))
+    ipl = [[] for _ in range(11)]
+    for line in rulesets.neutral_read(os.path.join(d, 'IP.level'), enc):
+        lvl, k = line.split('\t', 1)
+        ipl[int(lvl)].append(ids_of(k, ids))
+    cpl = {}
+    for line in rulesets.neutral_read(os.path.join(d, 'CP.level'), enc):
+        lvl, k = line.split('\t', 1)
+        cpl.setdefault(k[:-1], {}).setdefault(int(lvl), []).append(ids_of(k[-1], ids)[0])
+    cpl_list = [[ids_of(p, ids), [[lv, chars] for lv, chars in sorted(bylvl.items())]] for p, bylvl in cpl.items()]
+    return {'n': n, 'lnl': lnl, 'ipl': ipl, 'cpl': cpl_list}, ids
+
+
+def memo_snapshot(opt, ids):
+    out = []
+    for length, table in enumerate(opt.tmto_lookup):
+        for ip, bytgt in table.items():
+            for tgt, val in bytgt.items():
+                v = [] if val is None else [[ids_of(e[0], ids), e[1], e[2] + 1] for e in val]
+                out.append([length, ids_of(ip, ids), tgt, v])
+    return out
+
+
+def step_trace(tid, d, levels, cap=400):
+    """one shared Optimizer, the given levels in order; every next_guess() with the internal state after it"""
+    from lib_guesser.omen.markov_cracker import MarkovCracker
+    g = load_real(d)
+    om, ids = ordered_model(d)
+    opt = new_optimizer()
+    rounds = []
+    for lv in levels:
+        mc = MarkovCracker(g, lv, opt)
+        steps = []
+        while True:
+            s = mc.next_guess()
+            rec = {'g': ids_of(s, ids) if s is not None else [], 'pt': [], 'len': [0, 0], 'ip': [0, 0]}
+            if s is not None:
+                rec['pt'] = [[ids_of(e[0], ids), e[1], e[2] + 1] for e in mc.cur_guess.parse_tree]
+                rec['len'] = [mc.cur_len[0], mc.cur_len[1] + 1]
+                rec['ip'] = [mc.cur_ip[0], mc.cur_ip[1] + 1]
+            steps.append(rec)
+            if s is None or len(steps) > cap:
+                break
+        if steps and steps[-1]['g']:
+            return None         # capped: not a complete level
+        rounds.append({'level': lv, 'steps': steps, 'memo': memo_snapshot(opt, ids)})
+    return {'tid': tid, 'om': om, 'rounds': rounds}
